@@ -254,7 +254,7 @@ def microdvd_writer(ctx, report, ev):
                  Fraction(str(ad.value)) == Fraction(str(d.value)),
                  "R-TABLE-SIBLING", fn, "reader and writer use the same default frame rate",
                  {"writer": dv, "reader": getattr(ad, "value", None)}, "1")
-    ret = [n.value for n in walk_no_nested(fn.node) if isinstance(n, ast.Return)][0]
+    ret = resolve_local(fn, [n.value for n in walk_no_nested(fn.node) if isinstance(n, ast.Return)][0])
     kinds = {"micro": "int", "fps": "intfloat" if isinstance(dv, float) and float(dv).is_integer() else "int"}
     rounds = _roundings(ret, kinds)
     report.check(rounds <= 1, "R-EXACT", fn, "frame number is not truncated from a twice-rounded float",
